@@ -413,17 +413,56 @@ func (ex *Exec) builtin(fr *frame, st *State, reach *Term, b *ssa.Builtin, c *ss
 // ---- modification analysis for loops / uncontracted frames ------------------------------------------
 
 type modSet struct {
-	all   bool
-	comps map[string]Sort
-	iters map[string]bool
+	all      bool
+	comps    map[string]Sort
+	iters    map[string]bool
+	nonfresh map[string]bool // components with a write to an object that may have existed before the scanned region
+	scope    map[int]bool    // loop scan: block indices of the loop body (nil: whole function)
+	scopeFn  *ssa.Function
 }
 
-func newModSet() *modSet { return &modSet{comps: map[string]Sort{}, iters: map[string]bool{}} }
+func newModSet() *modSet {
+	return &modSet{comps: map[string]Sort{}, iters: map[string]bool{}, nonfresh: map[string]bool{}}
+}
 
-func (m *modSet) add(name string, s Sort) { m.comps[name] = s }
+func (m *modSet) add(name string, s Sort) { m.comps[name] = s; m.nonfresh[name] = true }
+
+// addFresh: the component is written only at objects allocated inside the scanned region.
+func (m *modSet) addFresh(name string, s Sort) { m.comps[name] = s }
+
+func (m *modSet) allocInScope(in ssa.Instruction) bool {
+	if m.scope == nil || in.Parent() != m.scopeFn {
+		return true
+	}
+	return m.scope[in.Block().Index]
+}
+
+// freshRoot: does the address chain start at an object allocated inside the scanned region?
+func (m *modSet) freshRoot(v ssa.Value) bool {
+	for {
+		switch x := v.(type) {
+		case *ssa.FieldAddr:
+			v = x.X
+		case *ssa.IndexAddr:
+			v = x.X
+		case *ssa.Slice:
+			v = x.X
+		case *ssa.Alloc:
+			return m.allocInScope(x)
+		case *ssa.MakeSlice:
+			return m.allocInScope(x)
+		case *ssa.MakeMap:
+			return m.allocInScope(x)
+		default:
+			return false
+		}
+	}
+}
 
 func (ex *Exec) loopMods(fr *frame, fn *ssa.Function, body map[int]bool) *modSet {
 	ms := newModSet()
+	ms.scope = body
+	ms.scopeFn = fn
 	for _, b := range fn.Blocks {
 		if !body[b.Index] {
 			continue
@@ -544,23 +583,32 @@ func (ex *Exec) scanInstr(fr *frame, in ssa.Instruction, ms *modSet, depth int, 
 		return
 	}
 	addAlive := func() { ms.add("alive", aliveSort) }
+	fresh := false
+	add := func(c string, s Sort) {
+		if fresh {
+			ms.addFresh(c, s)
+		} else {
+			ms.add(c, s)
+		}
+	}
 	addStruct := func(t types.Type) {
 		s := t.Underlying().(*types.Struct)
 		for i := 0; i < s.NumFields(); i++ {
 			c, cs, _ := ex.fieldComp(t, i)
-			ms.add(c, cs)
+			add(c, cs)
 		}
 	}
 	addMap := func(mt *types.Map) {
 		d, v, l, ks, vs := ex.mapComps(mt)
-		ms.add(d, ArraySort(SInt, ArraySort(ks, SBool)))
-		ms.add(v, ArraySort(SInt, ArraySort(ks, vs)))
-		ms.add(l, ArraySort(SInt, ex.vc.IntSort()))
+		add(d, ArraySort(SInt, ArraySort(ks, SBool)))
+		add(v, ArraySort(SInt, ArraySort(ks, vs)))
+		add(l, ArraySort(SInt, ex.vc.IntSort()))
 	}
 	switch x := in.(type) {
 	case *ssa.Store:
+		fresh = ms.freshRoot(x.Addr)
 		if c, s, ok := ex.addrComp(fr, x.Addr); ok {
-			ms.add(c, s)
+			add(c, s)
 			return
 		}
 		t := derefType(x.Addr.Type())
@@ -586,25 +634,29 @@ func (ex *Exec) scanInstr(fr *frame, in ssa.Instruction, ms *modSet, depth int, 
 		ms.add(c, s)
 	case *ssa.Alloc:
 		addAlive()
+		fresh = true
 		t := derefType(x.Type())
 		if isStructType(t) {
 			addStruct(t)
 		} else if arr, ok := types.Unalias(t).Underlying().(*types.Array); ok {
 			c, s := ex.sliceComp(arr.Elem())
-			ms.add(c, s)
+			add(c, s)
 		} else {
 			c, s := ex.cellComp(t)
-			ms.add(c, s)
+			add(c, s)
 		}
 	case *ssa.MapUpdate:
+		fresh = ms.freshRoot(x.Map)
 		addMap(types.Unalias(x.Map.Type()).Underlying().(*types.Map))
 	case *ssa.MakeMap:
 		addAlive()
+		fresh = true
 		addMap(types.Unalias(x.Type()).Underlying().(*types.Map))
 	case *ssa.MakeSlice:
 		addAlive()
+		fresh = true
 		c, s := ex.sliceComp(types.Unalias(x.Type()).Underlying().(*types.Slice).Elem())
-		ms.add(c, s)
+		add(c, s)
 	case *ssa.MakeInterface:
 		if !isPointerLike(x.X.Type()) {
 			addAlive()
@@ -665,7 +717,7 @@ func (ex *Exec) scanCall(fr *frame, c *ssa.CallCommon, ms *modSet, depth int, vi
 		case "append":
 			ms.add("alive", aliveSort)
 			c2, s := ex.sliceComp(types.Unalias(c.Args[0].Type()).Underlying().(*types.Slice).Elem())
-			ms.add(c2, s)
+			ms.addFresh(c2, s)
 		case "delete":
 			mt := types.Unalias(c.Args[0].Type()).Underlying().(*types.Map)
 			d, vv, l, ks, vs := ex.mapComps(mt)
@@ -811,6 +863,10 @@ func (ex *Exec) contractMods(fc *FuncContract, fn *ssa.Function, ms *modSet) {
 		return
 	}
 	for k, s := range sub.comps {
-		ms.add(k, s)
+		if sub.nonfresh[k] {
+			ms.add(k, s)
+		} else {
+			ms.addFresh(k, s)
+		}
 	}
 }
